@@ -796,7 +796,7 @@ struct AdfFile * adfFileOpen ( struct AdfVolume * const vol,
         return NULL;
     }
 
-    file->currentData = malloc ( 512 * sizeof(uint8_t) );
+    file->currentData = calloc ( 512, sizeof(uint8_t) );   /* its unwritten tail reaches the disk */
     if ( file->currentData == NULL ) {
         adfEnv.eFct ( "adfFileOpen : malloc" );
         free ( file->fileHdr );
@@ -1206,9 +1206,8 @@ RETCODE adfFileCreateNextBlock ( struct AdfFile * const file )
                     file->currentExt);
             }
 
-            /* initializes a file extension block */
-            for ( int i = 0 ; i < MAX_DATABLK ; i++ )
-                file->currentExt->dataBlocks[i] = 0L;
+            /* initializes a file extension block (reserved fields included) */
+            memset ( file->currentExt, 0, sizeof(struct bFileExtBlock) );
             file->currentExt->headerKey = extSect;
             file->currentExt->parent = file->fileHdr->headerKey;
             file->currentExt->highSeq = 0L;
